@@ -670,6 +670,41 @@ class K(Left, Right):
     pass
 OPS = [("new", (5,), {{}}), ("getattr", "y"), ("call", "who"), ("call", "left"), ("new", (), {{"y": 6}}), ("getattr", "y"), ("getattr", "x"), ("mro",)]
 ''',
+    "plain-subclass-joining-a-mixin-with-special-methods": '''
+class Mixin:
+    """Defines what object only provides defaults for."""
+    def __str__(self):
+        return "mixin-str"
+    def __eq__(self, other):
+        return isinstance(other, Mixin) or other == "anything"
+    def __hash__(self):
+        return 7
+    def __format__(self, spec):
+        return "mixin-format"
+    def __lt__(self, other):
+        return True
+{deco}
+class Base{base}:
+    def get(self):
+        return 1
+class K(Base, Mixin):
+    pass
+OPS = [("new", (), {{}}), ("str",), ("eqto", "anything"), ("hashval",), ("format",), ("ltself",), ("call", "get"), ("mro",)]
+''',
+    "plain-subclass-joining-a-mixin-with-a-constructor": '''
+class Mixin:
+    def __new__(cls, *args, **kwargs):
+        self = super().__new__(cls)
+        self.made_by_mixin = True
+        return self
+{deco}
+class Base{base}:
+    def get(self):
+        return 1
+class K(Base, Mixin):
+    pass
+OPS = [("new", (), {{}}), ("getattr", "made_by_mixin"), ("call", "get"), ("mro",)]
+''',
     "singleton-new": '''
 {deco}
 class K{base}:
@@ -820,6 +855,16 @@ def run_ops(mod, ops) -> List[Any]:
                 res = inst == inst
             elif op[0] == "hash":
                 res = isinstance(hash(inst), int)
+            elif op[0] == "str":
+                res = str(inst)
+            elif op[0] == "eqto":
+                res = inst == op[1]
+            elif op[0] == "hashval":
+                res = hash(inst)
+            elif op[0] == "format":
+                res = format(inst, "")
+            elif op[0] == "ltself":
+                res = inst < inst
             elif op[0] == "repr":
                 res = repr(inst)
             elif op[0] == "index":
@@ -866,6 +911,8 @@ INV_DECOS = {
     "all": "@icontract.invariant(lambda self: HUB.inv('inv', self), check_on=icontract.InvariantCheckEvent.ALL)",
     "two": "@icontract.invariant(lambda self: HUB.inv('inv2', self))\n@icontract.invariant(lambda: HUB.inv('inv', None), check_on=icontract.InvariantCheckEvent.ALL)",
 }
+
+OBJECT_DEFAULT_OPS = {"str": "__str__", "eqto": "__eq__", "hashval": "__hash__", "format": "__format__", "ltself": "__lt__"}
 
 CLASS_KEYS = {
     "new-returns-object-of-another-type": "C14/new-returning-foreign-object-breaks-instantiation",
@@ -940,6 +987,20 @@ def run_classes(w) -> None:
                             key = CLASS_KEYS[tag]
                         elif tag == "first-param-not-self" and got[i] == ("raise", "KeyError"):
                             key = CLASS_KEYS[tag]
+                        elif tag == "plain-subclass-joining-a-mixin-with-a-constructor" and not dbc and op[0] in ("new", "getattr") \
+                                and getattr(getattr(inspect.getattr_static(dec.module.Base, "__new__", None), "__func__", None), "__wrapped__", None) is object.__new__:
+                            # (the same mechanism: the copy of object.__new__ held by the class with invariants)
+                            key = "C14/copy-of-an-object-default-shadows-a-mixin-in-a-plain-subclass"
+                        elif op[0] in OBJECT_DEFAULT_OPS and not dbc:
+                            # mechanism: the class with invariants holds a wrapped copy of the default which ``object`` provides for
+                            # the special method; in a PLAIN sub-class (nothing of the library runs when it is created) the copy is
+                            # found before the definition of a class that comes later in the method resolution order
+                            dunder = OBJECT_DEFAULT_OPS[op[0]]
+                            found = inspect.getattr_static(dec.module.K, dunder, None)
+                            holder = next((k for k in dec.module.K.__mro__ if dunder in vars(k)), None)
+                            if holder is not None and holder is not dec.module.K and "Mixin" not in holder.__name__ \
+                                    and getattr(found, "__wrapped__", None) is getattr(object, dunder, None):
+                                key = "C14/copy-of-an-object-default-shadows-a-mixin-in-a-plain-subclass"
                         w.violation(key,
                                     "{} ({}DBC, invariant {}): operation {} gives {} with invariants but {} without".format(
                                         tag, "" if dbc else "no ", iname, bare.module.OPS[i], got[i], want[i]), case,
